@@ -2697,11 +2697,8 @@ impl Server {
             }
         }
         
-        if results.is_empty() {
-            Ok(RespFrame::null_array())
-        } else {
-            Ok(RespFrame::Array(Some(results)))
-        }
+        // (nothing to pop is an empty array, as the script path answers it)
+        Ok(RespFrame::Array(Some(results)))
     }
     
     /// Handle ZPOPMAX command  
@@ -2745,11 +2742,8 @@ impl Server {
             }
         }
         
-        if results.is_empty() {
-            Ok(RespFrame::null_array())
-        } else {
-            Ok(RespFrame::Array(Some(results)))
-        }
+        // (nothing to pop is an empty array, as the script path answers it)
+        Ok(RespFrame::Array(Some(results)))
     }
     
     /// Handle PING command
